@@ -123,6 +123,9 @@ func IDs() []string {
 
 var allShapes = []string{"doc", "flat", "nested", "person", "rep3"}
 
+// c13Shapes adds the twin shapes (same column names, different physical types).
+var c13Shapes = []string{"doc", "flat", "flatb", "nested", "nestedb", "person", "rep3"}
+
 // writerCandidates lifts ShrinkWriter to cases.
 func writerCandidates(c *core.Case) []*core.Case {
 	var out []*core.Case
